@@ -408,8 +408,12 @@ def replay(payload: dict) -> int:
         print("not reproduced")
         return 0
     if payload["kind"] != "wrong":
-        print("recorded:", payload.get("why"))
-        return 1
+        model = SymL3(g)
+        chk = check_output(g, ev, expr, model, Denoter(model, vocab=single_world_vocab(g.nodes)), 30000)
+        bad = chk["violation"] is not None and chk["violation"]["kind"] == payload["kind"]
+        print("recorded:", payload.get("why"), "| now:", chk["violation"])
+        print("reproduced" if bad else "not reproduced")
+        return 1 if bad else 0
     a, b, differ = exact_values(g, ev, expr, payload["env"], params_from_json(payload["params"]))
     print(f"expression value {a}, P(event) = {b}:", "reproduced" if differ else "not reproduced")
     return 1 if differ else 0
